@@ -824,6 +824,17 @@ def r6(ctx):
             leaf = any(l[0] == 'true' and any(is_call(x, 'Tree::is_leaf') and x[2][0] == ('param', 'self') and prune.dfs_component(x[2][1]) and prune.dfs_component(x[2][1])[1] == 'index'
                                               and s(prune.dfs_component(x[2][1])[0]) == s(it) for x in walk(l[1])) for l in lits)
             ok = ok and leaf
+        if ok:
+            # each of the three estimators (minimum, maximum, variance) is fed once per leaf, and the result is (min, mean, variance, max) read off
+            # the estimator of that kind
+            recv = sorted(fmt(s(a[0])) for bb, a in adds)
+            rets_ = [s(e) for _, e in R.return_expr()]
+            want_ret = ('agg', 'tuple', (('call', 'Min::min', (('call', 'Min::new', ()),)), ('call', 'Variance::mean', (('call', 'Variance::new', ()),)),
+                                         ('call', 'Variance::sample_variance', (('call', 'Variance::new', ()),)), ('call', 'Max::max', (('call', 'Max::new', ()),))))
+            if recv != ['Max::new()', 'Min::new()', 'Variance::new()'] or rets_ != [want_ret]:
+                ctx.bad('C13.R6', 'Tree::depth_stats#estimators', 'the minimum / maximum / variance estimators are not each fed once per leaf and read back in the order (min, mean, variance, max): fed %s' % recv, b.span)
+            else:
+                ctx.ok('C13.R6', 'Tree::depth_stats#estimators', 'Min, Max and Variance each fed once per leaf; result = (min, mean, sample variance, max)', b.span)
         (ctx.ok if ok else ctx.bad)('C13.R6', 'Tree::depth_stats#values', 'statistics over the traversal depth of exactly the nodes whose leaf flag is set' if ok else
                                     'depth_stats does not aggregate the depths the traversal from the root reports for the terminal nodes', b.span)
     b = ctx.body('C13.R6', 'Tree::dfs_iter')
